@@ -79,6 +79,45 @@ func newRoot(d ref.DT, shape []int, fortran bool, conv bool) (*tensor.Dense, int
 	return t, back
 }
 
+// dirtyPool leaves recycled *Dense objects in the library's pool (most recently returned last).
+func dirtyPool(d ref.DT, shape []int) {
+	defer func() { recover() }()
+	n := ref.Prod(shape)
+	if n == 0 {
+		return
+	}
+	// a masked tensor
+	mt := tensor.New(tensor.WithShape(n), tensor.WithBacking(d.MakeSlice(n), make([]bool, n)))
+	tensor.ReturnTensor(mt)
+	// a row view of a bigger tensor, and its parent
+	if len(shape) >= 1 && shape[0] >= 1 {
+		big := ref.CopyInts(shape)
+		big[0] += 2
+		p, _ := newRoot(d, big, false, false)
+		if v, err := p.Slice(tensor.S(1, shape[0]+1)); err == nil {
+			tensor.ReturnTensor(v.(*tensor.Dense))
+		}
+		tensor.ReturnTensor(p)
+	}
+	// a lazily transposed tensor of the reversed shape (so that it has the upcoming root's shape), returned last
+	if len(shape) >= 2 {
+		t, _ := newRoot(d, rev(shape), false, false)
+		if t.T() == nil {
+			tensor.ReturnTensor(t)
+		}
+		if len(shape) >= 3 {
+			t2, _ := newRoot(d, shape, false, false)
+			rot := make([]int, len(shape))
+			for i := range rot {
+				rot[i] = (i + 1) % len(shape)
+			}
+			if t2.T(rot...) == nil {
+				tensor.ReturnTensor(t2)
+			}
+		}
+	}
+}
+
 // interior: root padded by one on both sides of every axis longer than one, sliced [1:n+1]; length-one axes are
 // kept whole (a range that cuts an axis to length one would let the library drop the axis).
 func interior(shape []int) (rootShape []int, m []ref.Sl, t []tensor.Slice) {
@@ -150,6 +189,17 @@ func build(d ref.DT, shape []int, vals []interface{}, layout string) (*Built, er
 			return ErrNA
 		}
 		return nil
+	}
+	if strings.HasPrefix(layout, "D") {
+		// "D<layout>": the same layout built on a DIRTY pool - earlier, perfectly legal use has handed *Dense objects back
+		// to the library (a lazily transposed tensor of the reversed shape, a row view, a masked tensor), so the
+		// constructors below draw recycled objects. A differential oracle: everything must be as from a clean pool.
+		dirtyPool(d, shape)
+		nb, err := build(d, shape, vals, strings.TrimPrefix(layout, "D"))
+		if nb != nil {
+			nb.Layout = layout
+		}
+		return nb, err
 	}
 	fort := strings.HasPrefix(layout, "F")
 	base := strings.TrimPrefix(layout, "F")
